@@ -243,7 +243,9 @@ MgrInsertSub_G(name, si, ti, d, push, ok) ==
       \* ... a create that replaces a bound name also orphans the old incarnation, which stays in
       \* its topic's list (C11)
       G("C10,C11", ok => name \notin DOMAIN smap),
-      G("C09", ok => si \notin DOMAIN S),
+      \* (the internal id of a subscription is what listings are ordered by: creation order needs
+      \* every incarnation to get an id of its own)
+      G("C13", ok => si \notin DOMAIN S),
       G("BIND", ti \in DOMAIN T) }
 MgrInsertSub_A(name, si, ti, d, push, ok) ==
     /\ IF ok
@@ -399,7 +401,9 @@ ExpiredBy(s, acks) == {s.lease[a].m : a \in SeqSet(acks) \cap DOMAIN s.lease}
 SubExpire_G(si, acks, queueAfter, judgeLate, t, early) ==
     IF si \notin DOMAIN S \/ S[si].st # "live" THEN { G("BIND", FALSE) } ELSE
     ExpireGuards(S[si], acks, t, judgeLate, early) \cup
-    { G("C01", SameElementsPlus(queueAfter, S[si].queue, ExpiredBy(S[si], acks))),
+    { \* the queue after the turn = the queue before + the expired messages: "becomes available for
+      \* redelivery" (C04) and nothing is lost (C01)
+      G("C01,C04", SameElementsPlus(queueAfter, S[si].queue, ExpiredBy(S[si], acks))),
       G("C08", SameOrderOf(queueAfter, S[si].queue, SeqSet(S[si].queue) \ S[si].seen)) }
 SubExpire_A(si, acks, queueAfter) ==
     /\ S' = [S EXCEPT ![si] = [SubAfterExpire(@, acks) EXCEPT !.queue = queueAfter]]
